@@ -819,10 +819,10 @@ def impl(c):
     a = c.args
     try:
         if a[0] == 'merge':
-            return _show_blocks(cidr_merge([_obj(it) for it in a[1]]))
+            return _show_blocks(common.twice(lambda: cidr_merge(common.as_iterable([_obj(it) for it in a[1]]))))
         if a[0] == 'r2c':
             ver = a[1]
-            return _show_blocks(iprange_to_cidrs(_obj(_ep_item(ver, a[2])), _obj(_ep_item(ver, a[3]))))
+            return _show_blocks(common.twice(lambda: iprange_to_cidrs(_obj(_ep_item(ver, a[2])), _obj(_ep_item(ver, a[3])))))
         if a[0] == 'rcidrs':
             # asked twice, mutating the first answer's blocks in between (shared caches show up)
             return _show_blocks(common.twice_cidrs(_obj(('R', a[1], a[2], a[3]))))
